@@ -84,25 +84,43 @@ def components():
     }
 
 
+GROUP_WEIGHT = {"boo": 3, "dynamics": 3, "readers": 2, "nematic": 2, "s2": 2, "hessian": 2, "gr": 2, "sq": 2, "coarse": 2,
+                "vector": 2, "neighbors": 2, "freud": 2, "geometric": 1, "shape": 1, "utils": 1, "scalars": 1}
+SUPPORT = ("Nnearests", "Nnearests", "cutoffneighbors", "cal_neighbors", "cal_neighbors", "stub.mk_dump")
+
+
+def _weighted(rng, ids, weight):
+    tot = sum(weight(i) for i in ids)
+    x = rng.random() * tot
+    for i in ids:
+        x -= weight(i)
+        if x <= 0:
+            return i
+    return ids[-1]
+
+
 def choose(w, rng):
-    """Pick the adapter of the next call: enabled groups, biased towards further calls on
-    objects that already live in the pool."""
+    """Pick the adapter of the next call: support files early (neighbour lists, Voronoi files,
+    dumps - the library's IPC), then enabled groups by weight, biased towards further calls
+    on objects that already live in the pool."""
     sw = w.swarm
+    nfiles = len(w.files)
+    if rng.random() < (0.6 if nfiles == 0 else 0.3 if nfiles < 3 else 0.08):
+        return REG[rng.choice(SUPPORT)]
     groups = [g for g in sw["groups"] if g in GROUPS]
     if not groups:
         groups = sorted(GROUPS)
+    classes = [e.tag["cls"] for e in w.pool.values() if e.kind == "obj"]
+    single = sorted(c for c in set(classes) if classes.count(c) == 1 and c + ".init" in REG)
+    if single and rng.random() < 0.15:
+        # a second object of a class that already has one: cross-object interference needs twins
+        w.ctx.probe("twin_object_requested")
+        return REG[rng.choice(single) + ".init"]
     if rng.random() < sw["p_reuse"]:
-        live = sorted({e.tag["cls"] for e in w.pool.values() if e.kind == "obj"})
-        meth = [i for i in sorted(REG) if getattr(REG[i], "cls", None) in live and REG[i].prefix == "R"
+        live = sorted(set(classes))
+        meth = [i for i in sorted(REG) if getattr(REG[i], "cls", None) in live and REG[i].prefix != "O"
                 and hasattr(REG[i], "name")]
         if meth:
             return REG[rng.choice(meth)]
-    g = rng.choice(groups)
-    ids = GROUPS[g]
-    tot = sum(REG[i].weight for i in ids)
-    x = rng.random() * tot
-    for i in ids:
-        x -= REG[i].weight
-        if x <= 0:
-            return REG[i]
-    return REG[ids[-1]]
+    g = _weighted(rng, groups, lambda k: GROUP_WEIGHT.get(k, 1))
+    return REG[_weighted(rng, GROUPS[g], lambda i: REG[i].weight)]
